@@ -10,17 +10,27 @@ ID = 'C12'
 THEOREMS = CT.THEOREMS_C12 + [
     ('EAO.Properties.C19', 'EAO.C19.dt_real', 'each step length equals the real elapsed time to the next point in main time units, for any point list (DST, calendar months)'),
 ] + ST_.THEOREMS_C12_STORAGE + CH_.THEOREMS_C12_CHP
-PARTIAL = ['unit_change is proved builder by builder: contract / transport / multi-commodity (rates not given as price keys), Storage (all options), CHP / Plant incl. ramp profiles, min-load costs and costs_only (rates not given as price keys; the constructor guard on declared histories must be stable under the change: it is evaluated on raw values, known finding F-06d); for price-key rates and for LinkedAsset the statement rests on the metamorphic oracles']
+PARTIAL = ['unit_change is proved builder by builder: contract / transport / multi-commodity (rates not given as price keys), Storage (all options), CHP / Plant incl. ramp profiles, min-load costs and costs_only (rates not given as price keys; the constructor guard on declared histories must be stable under the change: it is evaluated on raw values, known finding F-06d); for price-key rates and for LinkedAsset the statement rests on the metamorphic oracles', 'the unit_change theorems are statements over exact rationals; that the floating-point arithmetic of the code (np.cumsum of step lengths against max_store_duration, ceil of duration / step) does not make the result depend on the unit is NOT proved: it rests on the stream non-dyadic unit change (durations in whole grid steps, finding F-12c was of this kind)']
 COMPONENTS = ['contract/transport builders under unit pairs (dt scaling)', 'independent reference LP (harness/comp/textbook.py) on zone-aware daily grids across daylight-saving switches: costs and limits billed by elapsed time']
-RULE = ('metamorphic: random small portfolios (contracts, transports, storages, plants with durations) re-expressed for another main time unit among h, d, min, s (rates, inflow, holding cost, ramps scaled; durations scaled inversely) and re-optimised on the real code: value and dispatched volumes equal; '
+RULE = ('metamorphic: random small portfolios of contracts and transports re-expressed for another main time unit among h, d, min, s (rates scaled) and re-optimised on the real code: value and dispatched volumes equal; '
+        'non-dyadic unit change: unit-free situations (volumes per grid step, durations in WHOLE grid steps) expressed for two main time units in at least one of which the step is no binary fraction '
+        '(hourly / 15-min / 30-min / 2h / 4h / 8h grids in d, 5 / 10 / 20-min grids in h and d, against h, min, s; for storages also daily / 12h / 6h / hourly grids in weeks), every rate (capacities, inflow, holding cost, ramp, last dispatch) and duration '
+        '(Storage.max_store_duration, Plant / CHPAsset min_runtime, min_downtime, time_already_running, time_already_off, LinkedAsset time_back / time_forward) rounded once to the nearest float, prices drawn so that the '
+        'duration in focus binds (recorded per case: value changes when the duration is one step shorter / longer), both problems solved on the real code: same status, optimal value equal (1e-6 relative), and the optimal dispatch of '
+        'either unit is an optimal dispatch in the other (feasible and equally valuable there); first cases: buy in one hour, sell D hours later with a maximal holding time of D hours, D drawn from 1..23, units h / d (fixed finding F-12c); '
+        'real CHP / Plant / min-load problems of a case and of the case in another unit are equal; '
         'totals on DST / calendar-month grids equal rate x elapsed time; builder correspondence cases; non-trivial = solved pair with non-zero value; distinct by case hash')
-ASSUMPTIONS = ['values equal up to 1e-7 relative']
-EXPLANATION = 'theorems about the builder models (bounds = rate * dt, invariance under dt scaling); metamorphic oracle on the real code'
+ASSUMPTIONS = ['values equal up to 1e-7 relative (1e-6 in the non-dyadic stream, where the rescaled numbers are not representable exactly)', 're-expressed for another unit = every rate and duration is the nearest float of the exact quotient']
+EXPLANATION = 'theorems about the builder models (bounds = rate * dt, invariance under dt scaling: exact rationals); metamorphic oracles on the real code, among them the non-dyadic unit change stream, which exposes the floating-point arithmetic of the code (cumulated step lengths, duration / step quotients) to step lengths, rates and durations that are no binary fractions'
 
 
 def scenarios(seed, tier):
     n = 400 if tier == 'quick' else 2400
     rnd = random.Random(seed * 7919 + 12)
+    # statement level, non-dyadic unit change (own random stream, so that the other streams keep their cases): the situation of
+    # known finding F-12c first
+    for tag, c in nd_cases(random.Random(seed * 104729 + 1212), 160 if tier == 'quick' else 960):
+        yield tag, {'stream': 'nondyadic', 'case': c}
     for i in range(n):
         oc = CT.gen_oracle_case(random.Random(rnd.getrandbits(48)))
         while not oc['what'].startswith('c12'):
@@ -182,7 +192,320 @@ def run_chp_profiles(c):
     return r
 
 
+# ------------------------------------------------------------------------------------------------------------------------------
+# stream "non-dyadic unit change": the property's first sentence on the REAL code with unit pairs / grids in which the step
+# length, the rates and the durations are NOT binary fractions in at least one of the two units (1/24, 1/96, 1/12, 1/288 ...),
+# so that rounding noise of the code's own arithmetic (cumulated step lengths, duration / step quotients) shows.
+# A case is unit-free (volumes per grid step, durations in whole grid steps); `nd_scenario(c, unit)` expresses it for a unit the
+# way a user would: every rate and duration is the nearest float of the exact quotient.
+# (frequency, step in seconds, [unit pairs: at least one unit in which the step is no binary fraction], largest T)
+ND_GRIDS = [
+    ('h', 3600, [('h', 'd'), ('min', 'd'), ('s', 'd')], 47),
+    ('15min', 900, [('h', 'd'), ('min', 'd')], 40),
+    ('30min', 1800, [('h', 'd'), ('min', 'd')], 47),
+    ('2h', 7200, [('h', 'd')], 40),
+    ('4h', 14400, [('h', 'd')], 30),
+    ('8h', 28800, [('h', 'd')], 21),
+    ('5min', 300, [('min', 'h'), ('min', 'd'), ('s', 'h'), ('h', 'd')], 40),
+    ('10min', 600, [('min', 'h'), ('min', 'd'), ('h', 'd')], 40),
+    ('20min', 1200, [('min', 'h'), ('min', 'd'), ('h', 'd')], 40),
+]
+# the week as main time unit (pandas notation 'W', 7 days): steps of 1/7, 1/14, 1/28, 1/168
+ND_GRIDS_WEEK = [
+    ('d', 86400, [('d', 'W'), ('h', 'W')], 28),
+    ('12h', 43200, [('h', 'W'), ('d', 'W')], 30),
+    ('6h', 21600, [('h', 'W'), ('d', 'W')], 40),
+    ('h', 3600, [('h', 'W')], 47),
+]
+# with main_time_unit 'W' every CHPAsset / Plant / LinkedAsset set-up used to raise ValueError in eaopack.assets.convert_time_unit
+# (pd.to_timedelta(to_offset('W')): "Value must be Timedelta, ... not Week") while Timegrid, contracts and Storage work in weeks;
+# repaired in /repo (a65962a, finding F-12d).  The plant / linked families draw the week too (False: development switch only).
+ND_WEEK_PLANTS = True
+
+
+def _nd_grid(rnd, tmin, tmax, week=True):
+    in_weeks = rnd.random() < 0.25
+    freq, step_s, pairs, tlim = rnd.choice(ND_GRIDS_WEEK if (week and in_weeks) else ND_GRIDS)
+    ua, ub = rnd.choice(pairs)
+    return freq, step_s, [ua, ub], rnd.randint(min(tmin, tlim), min(tmax, tlim))
+
+
+def nd_cases(rnd, n):
+    """yield (tag, case).  First the situation in which the dependence was first seen (known finding F-12c, fixed): hourly grid of
+    one day, units h / d, buy in the first hour, sell D hours later, D drawn from 1..23; then the same two-contract situation on
+    other grids / unit pairs / positions, storages against a market with price spikes, plants / CHP with minimum runtime / downtime
+    and declared histories, linked plants."""
+    for i in range(max(4, n // 16)):
+        r2 = random.Random(rnd.getrandbits(48))
+        c = ST_.gen_unit_hold_case(r2, 'h', 3600, 24, literal=True)
+        c['t0'] = 0
+        c['units'] = ['h', 'd']
+        yield 'ndwit%d' % i, c
+    for i in range(n // 4):
+        r2 = random.Random(rnd.getrandbits(48))
+        freq, step_s, units, T = _nd_grid(r2, 12, 47)
+        c = ST_.gen_unit_hold_case(r2, freq, step_s, T, literal=r2.random() < 0.4)
+        c['units'] = units
+        yield 'ndhold%d' % i, c
+    for i in range(n // 2):
+        r2 = random.Random(rnd.getrandbits(48))
+        yield 'ndplant%d' % i, gen_nd_plant(r2)
+    for i in range(n // 8):
+        r2 = random.Random(rnd.getrandbits(48))
+        yield 'ndlink%d' % i, gen_nd_linked(r2)
+
+
+def gen_nd_plant(rnd):
+    """a plant (Plant or CHPAsset with a heat market) with a minimal load, selling into a market whose price is below the plant's
+    cost except for spikes; one duration parameter is in focus and the prices are drawn so that it binds:
+      min_runtime R          one spike shorter than R: the plant must keep running at a loss for the rest of R
+      min_downtime Dn        two spikes with a gap of Dn steps (switching off in between is just allowed) or Dn - 1 steps (just not)
+      time_already_running   running for a steps of R at the start, prices low at the start: R - a more steps at a loss
+      time_already_off       off for a steps of Dn at the start, spike at the start: Dn - a steps of the spike are lost
+    ramp (a rate), start costs and discounting optional; exactly one history is declared whenever a minimal downtime is given (the constructor
+    guard on raw values, known finding F-06d, is then stable)"""
+    freq, step_s, units, T = _nd_grid(rnd, 10, 20, week=ND_WEEK_PLANTS)
+    focus = rnd.choice(['min_runtime', 'min_runtime', 'min_downtime', 'min_downtime', 'time_already_running', 'time_already_off'])
+    lo, hi = rnd.choice([(2.0, 6.0), (1.0, 4.0), (3.0, 8.0)])           # volume per step at minimal / full load
+    cost = 20.0 + gen.q8(rnd, 0, 6)
+    base = cost - rnd.choice([4.0, 6.0, 10.0])
+    spike = cost + rnd.choice([30.0, 40.0, 60.0])
+    p = [base + gen.q8(rnd, 0, 1) for _ in range(T)]
+    dur = {}
+    if focus == 'min_runtime':
+        R = rnd.randint(2, min(8, T - 3))
+        r = rnd.randint(1, R - 1)
+        t0 = rnd.randint(1, T - R - 1)
+        for t in range(t0, t0 + r):
+            p[t] = spike + gen.q8(rnd, 0, 1)
+        dur['min_runtime'] = R
+        if rnd.random() < 0.4:
+            dur['min_downtime'] = rnd.randint(1, 3)
+            dur['time_already_off'] = rnd.randint(1, 4)
+    elif focus == 'min_downtime':
+        Dn = rnd.randint(2, min(7, T - 5))
+        r1, r2 = rnd.randint(1, 2), rnd.randint(1, 2)
+        t0 = rnd.randint(1, T - Dn - r1 - r2)
+        gap = Dn if rnd.random() < 0.6 else Dn - 1       # just allowed (one step more would not be) / just not allowed
+        for t in list(range(t0, t0 + r1)) + list(range(t0 + r1 + gap, t0 + r1 + gap + r2)):
+            p[t] = spike + gen.q8(rnd, 0, 1)
+        # deep loss in the gap: switching off in between pays whenever it is allowed
+        for t in range(t0 + r1, t0 + r1 + gap):
+            p[t] = base - rnd.choice([20.0, 40.0])
+        dur['min_downtime'] = Dn
+        dur['time_already_off'] = Dn + rnd.randint(0, 2)
+        if rnd.random() < 0.4:
+            dur['min_runtime'] = rnd.randint(1, 2)
+    elif focus == 'time_already_running':
+        R = rnd.randint(3, min(9, T - 2))
+        a = rnd.randint(1, R - 1)
+        dur['min_runtime'] = R
+        dur['time_already_running'] = a
+        if rnd.random() < 0.5:
+            t0 = rnd.randint(R - a, T - 2)
+            for t in range(t0, min(T, t0 + rnd.randint(1, 3))):
+                p[t] = spike + gen.q8(rnd, 0, 1)
+        if rnd.random() < 0.4:
+            dur['min_downtime'] = rnd.randint(1, 3)
+    else:
+        Dn = rnd.randint(3, min(9, T - 2))
+        a = rnd.randint(1, Dn - 1)
+        dur['min_downtime'] = Dn
+        dur['time_already_off'] = a
+        for t in range(0, min(T, Dn - a + rnd.randint(1, 3))):
+            p[t] = spike + gen.q8(rnd, 0, 1)
+        if rnd.random() < 0.4:
+            dur['min_runtime'] = rnd.randint(1, 3)
+    c = {'family': 'plant', 'freq': freq, 'step_s': step_s, 'T': T, 'units': units, 'focus': focus,
+         'start': rnd.choice(['2021-01-01T00:00:00', '2021-09-30T12:00:00']), 'cls': 'CHPAsset' if rnd.random() < 0.3 else 'Plant',
+         'lo': lo, 'hi': hi, 'cost': cost, 'p': p, 'dur': dur, 'start_costs': rnd.choice([0.0, 1.0, 5.0])}
+    if rnd.random() < 0.4:
+        c['ramp_step'] = lo + rnd.choice([0.0, 1.0, 2.0])        # largest change of the volume per step from one step to the next
+    if dur.get('time_already_running'):
+        c['last_step'] = lo                                       # volume of the step before the horizon
+    if c['cls'] == 'CHPAsset':
+        c['ph'] = [8.0 + gen.q8(rnd, 0, 2) for _ in range(T)]
+    if rnd.random() < 0.15:
+        c['wacc'] = rnd.choice([0.05, 0.1])
+    return c
+
+
+def gen_nd_linked(rnd):
+    """two plants linked by a LinkedAsset: the profitable plant a1 may dispatch only after a2 has been on for time_back (focus);
+    a2 optionally with declared running time and minimum runtime"""
+    import math
+    freq, step_s, units, T = _nd_grid(rnd, 8, 14, week=ND_WEEK_PLANTS)
+    c = {'family': 'linked', 'freq': freq, 'step_s': step_s, 'T': T, 'units': units, 'focus': 'time_back', 'start': '2021-01-01T00:00:00',
+         'p': [20 + round(15 * math.sin(t / 3.0) * 8) / 8.0 + gen.q8(rnd, 0, 5) for t in range(T)],
+         'a1': [2.0, 6.0, gen.q8(rnd, 14, 22)], 'a2': [1.0, 3.0, gen.q8(rnd, 18, 26)],
+         'dur': {'time_back': rnd.randint(1, 4), 'time_forward': rnd.choice([0, 0, 1]), 'time_already_running': rnd.choice([0, 1, 2]),
+                 'min_runtime': rnd.choice([0, 2, 3])}}
+    return c
+
+
+def nd_scenario(c, unit, shift=None):
+    """the case expressed for main time unit `unit`; shift {duration name: steps} moves durations (to see whether they bind)"""
+    shift = shift or {}
+    if c['family'] == 'hold':
+        return ST_.unit_hold_scenario(c, unit, shift=shift.get('max_store_duration', 0))
+    s, T = c['step_s'], c['T']
+    rate = lambda v: ST_.unit_rate(v, s, unit)
+    durs = {k: ST_.unit_duration(max(0, v + shift.get(k, 0)), s, unit) for k, v in c['dur'].items()}
+    grid = ST_.unit_grid(c, unit)
+    if c['family'] == 'plant':
+        a = {'min_cap': rate(c['lo']), 'max_cap': rate(c['hi']), 'extra_costs': c['cost'], 'start_costs': c['start_costs']}
+        a.update(durs)
+        if 'ramp_step' in c:
+            a['ramp'] = rate(c['ramp_step'])
+        if 'last_step' in c:
+            a['last_dispatch'] = rate(c['last_step'])
+        prices = {'p': list(c['p'])}
+        cap = rate(4 * c['hi'])
+        wacc = {'wacc': c['wacc']} if 'wacc' in c else {}
+        a.update(wacc)
+        assets = [{'type': c['cls'], 'name': 'pl', 'nodes': ['n'], 'args': a},
+                  {'type': 'SimpleContract', 'name': 'mkt', 'nodes': ['n'], 'args': dict({'price': 'p', 'min_cap': -cap, 'max_cap': cap}, **wacc)}]
+        nodes = ['n']
+        if c['cls'] == 'CHPAsset':
+            a.update({'conversion_factor_power_heat': 0.5, 'max_share_heat': 1.0})
+            assets[0]['nodes'] = ['n', 'nh']
+            prices['ph'] = list(c['ph'])
+            assets.append({'type': 'SimpleContract', 'name': 'mh', 'nodes': ['nh'], 'args': dict({'price': 'ph', 'min_cap': -cap, 'max_cap': cap}, **wacc)})
+            nodes = ['n', 'nh']
+        return {'grid': grid, 'nodes': nodes, 'prices': prices, 'assets': assets}
+    if c['family'] == 'linked':
+        a1 = {'type': 'Plant', 'name': 'a1', 'nodes': ['n'], 'args': {'min_cap': rate(c['a1'][0]), 'max_cap': rate(c['a1'][1]), 'extra_costs': c['a1'][2], 'start_costs': 1.0}}
+        a2 = {'type': 'Plant', 'name': 'a2', 'nodes': ['n'], 'args': {'min_cap': rate(c['a2'][0]), 'max_cap': rate(c['a2'][1]), 'extra_costs': c['a2'][2], 'start_costs': 2.0,
+                                                                     'time_already_running': durs['time_already_running'], 'min_runtime': durs['min_runtime']}}
+        la = {'type': 'LinkedAsset', 'name': 'la', 'nodes': ['n'], 'inner': [a1, a2],
+              'args': {'asset1_variable': ['a1', 'disp', 'n'], 'asset2_variable': ['a2', 'bool_on', None],
+                       'time_back': durs['time_back'], 'time_forward': durs['time_forward']}}
+        cap = rate(20.0)
+        return {'grid': grid, 'nodes': ['n'], 'prices': {'p': list(c['p'])},
+                'assets': [la, {'type': 'SimpleContract', 'name': 'm', 'nodes': ['n'], 'args': {'price': 'p', 'min_cap': -cap, 'max_cap': cap}}]}
+    raise ValueError(c['family'])
+
+
+def _nd_solve(s):
+    """real code: build, set up, solve (SCIP; all cases are small MIPs)"""
+    import numpy as np
+    from .. import impl, scen
+    try:
+        with impl.Quiet():
+            portf, tg, prices, nodes = scen.build(s)
+            op = portf.setup_optim_problem(prices, tg)
+        res = impl.solve(op, solver='SCIP')
+    except Exception as e:
+        return {'status': 'error:' + impl.err_class(e), 'msg': str(e)[:200]}
+    if isinstance(res, str):
+        return {'status': res}
+    return {'status': 'ok', 'value': float(res.value), 'x': np.asarray(res.x, dtype=float), 'op': op}
+
+
+def _nd_transfer(src, dst):
+    """'dispatched volumes unchanged', decided through the value: the optimal x of the problem in one unit must be feasible and
+    equally valuable in the problem of the other unit (the variables are volumes and switches: the same in every unit); when the
+    full x does not carry over, only its DISPATCH part is imposed on the other problem (bounds x -/+ tolerance) and that problem is
+    solved again.  Returns None or a description."""
+    import copy
+    import numpy as np
+    from .. import impl
+    from ..pf import feasibility_violation
+    a, b = src['op'], dst['op']
+    if len(a.c) != len(b.c):
+        return 'the problems have %d and %d variables' % (len(a.c), len(b.c))
+    x = src['x']
+    tolv = 1e-6 * max(1.0, abs(dst['value']))
+    worst, what = feasibility_violation(b, x)
+    if worst <= 1e-6 and abs(float(b.c @ x) - float(b.c @ dst['x'])) <= tolv:
+        return None
+    op = copy.deepcopy(b)
+    idx = np.asarray(sorted(set(op.mapping.index[op.mapping['type'] == 'd'])), dtype=int)
+    eps = 1e-6 * max(1.0, float(np.abs(x).max()))
+    op.l = np.asarray(op.l, dtype=float).copy()
+    op.u = np.asarray(op.u, dtype=float).copy()
+    op.l[idx] = np.maximum(op.l[idx], np.minimum(x[idx] - eps, op.u[idx]))
+    op.u[idx] = np.minimum(op.u[idx], np.maximum(x[idx] + eps, op.l[idx]))
+    try:
+        res = impl.solve(op, solver='SCIP')
+    except Exception as e:
+        return 'dispatch imposed: %s' % type(e).__name__
+    if isinstance(res, str):
+        return 'with the dispatch imposed the problem is %s (full x: %s violated by %.3g)' % (res, what, worst)
+    if abs(float(res.value) - dst['value']) > 10 * tolv:
+        return 'with the dispatch imposed the value is %.9g instead of %.9g' % (float(res.value), dst['value'])
+    return None
+
+
+def _nd_describe(s):
+    out = []
+    for a in s['assets']:
+        for b in [a] + a.get('inner', []):
+            out.append('%s %s(%s)' % (b['type'], b['name'], ', '.join('%s=%r' % (k, (v['$dt'] if isinstance(v, dict) and '$dt' in v else v)) for k, v in b['args'].items())))
+    g = s['grid']
+    return 'Timegrid(%s, %s, freq=%r, main_time_unit=%r); %s; prices %s' % (g['start'], g['end'], g['freq'], g['unit'], '; '.join(out), {
+        k: (v if len(set(v)) > 1 else 'constant %g' % v[0]) for k, v in s['prices'].items()})
+
+
+def run_nondyadic(c):
+    from fractions import Fraction
+    ua, ub = c['units']
+    s = c['step_s']
+    r = {'evaluated': 2, 'nontrivial': False, 'disagreements': [], 'violations': [],
+         'features': ['stream:nondyadic-unit-change', 'nd:' + c['family'], 'nd:focus:' + c['focus'], 'nd:units:%s<->%s' % tuple(sorted(c['units'])), 'nd:freq:' + c['freq']]}
+    for k in sorted(set(c.get('opts', {})) | set(c.get('dur', {})) | {k for k in ('ramp_step', 'wacc', 'cls', 'form') if k in c}):
+        r['features'].append('nd:with:' + (c[k] if k in ('cls', 'form') else k))
+    sa, sb = nd_scenario(c, ua), nd_scenario(c, ub)
+    ra, rb = _nd_solve(sa), _nd_solve(sb)
+    facts = {'what': 'nondyadic', 'family': c['family'], 'focus': c['focus'], 'units': list(c['units']), 'freq': c['freq'],
+             'inputs': {ua: _nd_describe(sa), ub: _nd_describe(sb)}}
+
+    def viol(detail, **kw):
+        r['violations'].append({'oracle': 'unit_change', 'detail': detail + ' || ' + ua + ': ' + facts['inputs'][ua] + ' || ' + ub + ': ' + facts['inputs'][ub],
+                                'facts': dict(facts, **kw)})
+    r['observed'] = {ua: ra.get('value', ra['status']), ub: rb.get('value', rb['status'])}
+    if ra['status'] != 'ok' or rb['status'] != 'ok':
+        r['features'].append('nd:status:%s' % ra['status'].split(':')[0])
+        if ra['status'] != rb['status']:
+            viol('the same situation (%s, durations in whole steps of %s) gives %s with main time unit %s and %s with %s' % (
+                c['family'], c['freq'], (ra['status'] + ' ' + ra.get('msg', '')).strip(), ua, (rb['status'] + ' ' + rb.get('msg', '')).strip(), ub), kind='status')
+        return r
+    r['nontrivial'] = abs(ra['value']) > 1e-9
+    sc = max(1.0, abs(ra['value']))
+    if abs(ra['value'] - rb['value']) > 1e-6 * sc:
+        viol('the same situation (%s; %s of %s steps of %s) has optimal value %.9g with main time unit %s and %.9g with %s' % (
+            c['family'], c['focus'], (c.get('dur') or {'max_store_duration': c.get('D')}).get(c['focus']), c['freq'], ra['value'], ua, rb['value'], ub), kind='value')
+    else:
+        for src, dst, us, ud in ((ra, rb, ua, ub), (rb, ra, ub, ua)):
+            d = _nd_transfer(src, dst)
+            if d:
+                viol('the optimal dispatch found with main time unit %s is not an optimal dispatch with %s: %s' % (us, ud, d), kind='dispatch')
+                break
+    # does the duration in focus bind?  the same problem (reference unit: the one in which the step is a binary fraction, if
+    # any) with the duration one grid step shorter / longer
+    def dyadic(u):
+        q = Fraction(s, ST_.UNIT_S_C12[u])
+        return (q.denominator & (q.denominator - 1)) == 0
+    uref = ua if dyadic(ua) or not dyadic(ub) else ub
+    vref = ra['value'] if uref == ua else rb['value']
+    k = c['D'] if c['family'] == 'hold' else c['dur'][c['focus']]
+    binds = []
+    for sh in (-1, 1):
+        if k + sh < 0 or (c['family'] == 'hold' and k + sh < 1):
+            continue
+        rs = _nd_solve(nd_scenario(c, uref, shift={c['focus']: sh}))
+        r['evaluated'] += 1
+        if rs['status'] != 'ok' or abs(rs['value'] - vref) > 1e-6 * sc:
+            binds.append('%+d' % sh)
+    r['features'].append('nd:binds:%s' % ('yes' if binds else 'no'))
+    r['features'].append('nd:binds:%s:%s' % (c['focus'], ','.join(binds) if binds else 'no'))
+    r['observed']['binds'] = binds
+    return r
+
+
 def run_case(c, drv):
+    if c['stream'] == 'nondyadic':
+        return run_nondyadic(c['case'])
     if c['stream'] == 'chp-unit':
         v, obs = CH_.oracle_unit_change(c['case'])
         return {'evaluated': 2, 'nontrivial': bool(obs.get('compared', True)), 'features': ['stream:chp-unit-change'] + list(obs.get('features', [])), 'disagreements': [],
